@@ -61,3 +61,6 @@ M("c11-notify-collect-wakes-all-but-first", "C11", SYNC, "Condition.notify", _NO
 M("c11-notify-collect-wake-loop-breaks", "C11", SYNC, "Condition.notify", _NOTIFY_OLD, _COLLECT + "        for event in selected:\n            event.set()\n            break\n", ["R11-d"])
 M("c11-notify-collect-unbounded", "C11", SYNC, "Condition.notify", _NOTIFY_OLD, _COLLECT.replace("range(n)", "range(n + 1)") + "        for event in selected:\n            event.set()\n", ["R11-d"])
 M("c11-notify-collect-never-woken", "C11", SYNC, "Condition.notify", _NOTIFY_OLD, _COLLECT + "        if not selected:\n            for event in selected:\n                event.set()\n", ["R11-d"])
+
+# from seeded change C11/g (round 4)
+M("c11-taskinfo-equality-includes-parent", "C11", "_core/_testing.py", "TaskInfo.__eq__", "            return self.id == other.id", "            return (self.id, self.parent_id) == (other.id, other.parent_id)", ["R11-g"])
